@@ -174,6 +174,9 @@ impl Prop for C20 {
     fn id(&self) -> &'static str {
         "C20"
     }
+    fn pristine_run(&self) -> bool {
+        false // every schedule / driver line owns its process and mode already
+    }
     fn rule(&self) -> String {
         format!(
             "The driver crate harness/c20drv is built from the current tree under these configurations: {}. Each generated case (two Decimal representations, an integer, n, mode, a string) is evaluated by persistent driver processes of every build for ~330 public operations \
